@@ -119,7 +119,7 @@ Fixpoint ancestor_walk (fuel : nat) (tt : tytree) (t target : name) : bool :=
       end
   end.
 Definition subtypeb (tt : tytree) (t target : name) : bool :=
-  ancestor_walk (S (List.length tt)) tt t target.
+  ancestor_walk (S (S (List.length tt))) tt t target.
 
 (* ---------- numeric semantics ---------- *)
 Definition apply_binop (o : binop) (x y : float) : float :=
